@@ -83,3 +83,105 @@ SPECS["C20"] = CheckSpec(
     technique="exhaustive input enumeration on the real code (bounded model checking by enumeration, INX engine)",
     design_ref="DESIGN.md §3 C20", engine="INX",
 )
+
+
+# --------------------------------------------------------------------------- C01 / C02 (SEQX on the prefix table)
+PFX_BUILD = dict(flavour="asan", name="pfx_seqx", harness_srcs=["pfx_seqx.c"],
+                 exclude_lib=["rtrlib/pfx/trie/trie-pfx.c"])
+
+
+def _pj(prop, mode, fam=4, off=0, k=3, extra=()):
+    args = ["--prop=" + prop, "--mode=" + mode, "--fam=%d" % fam, "--off=%d" % off, "--k=%d" % k] + list(extra)
+    return Job("pfx_seqx", PFX_BUILD, args, "%s v%d off=%d k=%d %s" % (mode, fam, off, k, " ".join(extra)))
+
+
+def c01_jobs(tier, repo):
+    jobs = []
+    # (i) shape search: fixed point for k=2 on every word boundary, k=3 to a depth bound (quick) / deadline (thorough)
+    for off in (0, 1, 15, 30):
+        jobs.append(_pj("C01", "shape", 4, off, 2))
+    for off in (0, 30, 31, 62, 63, 94, 95, 126):
+        jobs.append(_pj("C01", "shape", 6, off, 2))
+    k3 = [(4, 0), (4, 29), (6, 0), (6, 61), (6, 125)]
+    if tier == "thorough":
+        k3 += [(4, 13), (6, 29), (6, 93)]
+    for fam, off in k3:
+        jobs.append(_pj("C01", "shape", fam, off, 3, ["--max-depth=4"] if tier == "quick" else []))
+    # (ii) payload combinations
+    for fam, off in ((4, 0), (4, 8), (6, 0), (6, 62)):
+        jobs.append(_pj("C01", "payload", fam, off, 3, ["--maxper=1"]))
+        for st in (2, 3, 4):
+            jobs.append(_pj("C01", "payload", fam, off, 3, ["--maxper=2", "--set=%d" % st]))
+        if tier == "thorough":
+            for st in (0, 1):
+                jobs.append(_pj("C01", "payload", fam, off, 3, ["--maxper=2", "--set=%d" % st]))
+    # (iii) deep chains
+    jobs.append(_pj("C01", "deep", 4))
+    jobs.append(_pj("C01", "deep", 6))
+    return jobs
+
+
+SPECS["C01"] = CheckSpec(
+    "C01", c01_jobs,
+    rule="explicit-state BFS over add/remove histories of a k-bit prefix universe placed at a bit offset of the "
+         "address (states = distinct canonical dumps of the real trie, transitions = operations executed on the real "
+         "table); in every distinct state all queries of the (k+1)-bit universe x {matching AS, foreign AS} go through "
+         "pfx_table_validate_r and pfx_table_validate and are compared with an RFC 6811 reference on the model set, "
+         "including the deciding records; plus direct enumeration of all payload combinations (AS in {0,1,2} x "
+         "max-length in {len-1,len,len+1,width} x source) on five node sets and the complete nested chain of all "
+         "33/129 lengths; non-trivial = distinct trie shapes/payload combinations",
+    assumptions=["records have host bits zero and lengths within the address width (the property's own scope)",
+                 "the k-bit universes at offsets on both sides of every 32-bit word boundary exercise every branch of "
+                 "the bit extraction; values outside these alphabets are not enumerated",
+                 "k=3 universes are explored to a depth bound (quick) or to the deadline (thorough); the fixed point "
+                 "is reached for k=2"],
+    counters_map={"executions": ["transitions"], "distinct": ["states"]},
+    level_text="Explicit-state model checking of the real trie: every add/remove history over a small prefix universe "
+               "is explored breadth-first to the fixed point of distinct trie shapes (k=2, all word-boundary offsets) "
+               "or to a stated depth (k=3), and in every state the complete query alphabet is answered by the real "
+               "validation code and by an RFC 6811 reference. The property quantifies over all histories and all "
+               "queries; a fixed point over a finite alphabet covers unbounded histories over that alphabet, which a "
+               "test cannot.",
+    level_note="Reference model = unsorted array + literal RFC 6811 (own bit comparison, no library code). Canonical "
+               "state = dump of the real trie nodes and payload arrays (harness includes trie-pfx.c to reach the "
+               "private structs). ASan+UBSan with assertions enabled; a crash is a violation.",
+    technique="explicit-state BFS over operation histories on the real object with canonical-dump deduplication "
+              "(SEQX) + exhaustive payload/deep-chain enumeration",
+    design_ref="DESIGN.md §3 C01, §2.5 SEQX", engine="SEQX",
+)
+
+
+def c02_jobs(tier, repo):
+    jobs = [_pj("C02", "twins")]
+    for fam, off in ((4, 0), (4, 7), (4, 31), (6, 0), (6, 63), (6, 127)):
+        jobs.append(_pj("C02", "shape", fam, off, 1, ["--two-src"]))
+    for fam, off in ((4, 0), (6, 62)) if tier == "quick" else ((4, 0), (4, 30), (6, 0), (6, 62), (6, 126)):
+        jobs.append(_pj("C02", "shape", fam, off, 2, ["--two-src"] + (["--max-depth=6"] if tier == "quick" else [])))
+    for fam, off in ((4, 0), (4, 30), (6, 0), (6, 31), (6, 63), (6, 95), (6, 126)):
+        jobs.append(_pj("C02", "shape", fam, off, 2))
+    for fam, off in ((4, 0), (6, 61)) if tier == "quick" else ((4, 0), (4, 29), (6, 0), (6, 61), (6, 125)):
+        jobs.append(_pj("C02", "shape", fam, off, 3, ["--max-depth=6"] if tier == "quick" else []))
+    return jobs
+
+
+SPECS["C02"] = CheckSpec(
+    "C02", c02_jobs,
+    rule="explicit-state BFS over histories of add / remove / remove-by-source (three sources, one of them never "
+         "used) on the real prefix table; alphabets: k-bit prefix universes with one or two sources per prefix, and "
+         "near-twin records differing in exactly one of max-length, AS, source, length, family; every transition "
+         "compares the return code with the set model, every distinct state compares the complete enumeration of "
+         "both families (all five fields) with the model as a multiset; states = distinct canonical dumps of the "
+         "real trie incl. payload order",
+    assumptions=["alphabets are small universes placed at word-boundary offsets; other values are not enumerated",
+                 "two-source k=2 and one-source k=3 universes are depth-bounded in the quick tier (bound in "
+                 "bounds_and_caps)"],
+    counters_map={"executions": ["transitions"], "distinct": ["states"]},
+    level_text="Explicit-state model checking of the real table against a set model: all histories over the alphabet "
+               "to the fixed point of distinct real structures (twins, two-source k=1, one-source k=2) or to a stated "
+               "depth. Set semantics under every history is exactly a reachability invariant, which is what BFS with "
+               "a reference model decides.",
+    level_note="State key = canonical dump of the real trie (shape + payload array order), so histories are merged "
+               "only when the implementation cannot tell them apart. Enumeration through the public for_each API.",
+    technique="explicit-state BFS over operation histories on the real object against a reference set model (SEQX)",
+    design_ref="DESIGN.md §3 C02", engine="SEQX",
+)
